@@ -536,12 +536,14 @@ PROPS["C16"] = dict(
          "then each sample alone are run on one real Model and every output is compared exactly with RunSem; TLC also checks the "
          "specification's BatchIndependent theorem on every batch. (B) trace validation: the repository's sample models mlp, gru, ndm, "
          "scaler are run on random batches (size 1..4), every sample alone, a permutation and a sub-selection with a repeated sample; "
-         "Trace_Batch.tla accepts the recorded trace only if every row agrees with the row of the same sample in the batch run; "
+         "Trace_Batch.tla accepts the recorded trace only if every row agrees with the row of the same sample in the batch run; the generated "
+         "model pruned_dense (Gemm transB=1 / MatMul / Gemm against weights with exact zeros) gets samples with +Inf, -Inf, NaN and exactly "
+         "zero features and every result's CLASS (finite value, +Inf, -Inf, NaN) must be the same in every batch composition; "
          "non-trivial = every batch / every recorded event",
     assumptions=["sample-model values are not recomputed (relational check, tolerance 2 + |v|/2^15 in units of 2^-16)"],
     stages=lambda tier: [
         mc("batch-exact", "MC_C16.tla", "MC_C16_%s.cfg" % tier, min_cases=250, workers=8),
-        trace("sample-models-batch-relation", ["batch", "-n", "15" if tier == "quick" else "120"], "Trace_Batch.tla", "Trace_Batch.cfg"),
+        trace("sample-models-batch-relation", ["batch", "-n", "15" if tier == "quick" else "120"], "Trace_Batch.tla", "Trace_Batch.cfg", java="-Xss1024m"),
     ],
 )
 
